@@ -15,10 +15,10 @@ func TestMain(m *testing.M) {
 	debug.SetGCPercent(400) // many short-lived documents and zip buffers
 	if kit.RaceMode() {
 		// the -race twin: short histories, every case has a concurrent phase
-		kit.TestMain(m, 140, 2500)
+		kit.TestMain(m, 120, 2500)
 		return
 	}
-	kit.TestMain(m, 380, 8000)
+	kit.TestMain(m, 340, 8000)
 }
 
 // openKF: ids listed open: for C17 in KNOWN_FINDINGS.txt (steers what the concurrent phase may contain).
